@@ -76,7 +76,9 @@ fn near_fill(rng: &mut Rng, cfg: &Cfg) -> Vec<u8> {
         Some(es) => {
             if cfg.dtype.name == "bool" { return vec![1 - f[0].min(1)]; }
             let mut x = f.clone();
-            match rng.below(3) {
+            // (behind the lossless fixedscaleoffset configuration `fso1` the one value it cannot carry, i32::MIN, is avoided)
+            let lo = if cfg.chain_desc.contains("fso1") { 1 } else { 0 };
+            match lo + rng.below(3 - lo) {
                 0 => { x[es - 1] ^= 0x80; x }   // sign bit: -0.0 vs 0.0, NaN sign
                 1 => { x[0] ^= 0x01; x }         // lowest bit: NaN payload, subnormal
                 _ => { let i = rng.below(es as u64) as usize; x[i] = x[i].wrapping_add(1); x }
